@@ -33,6 +33,13 @@ func Untag(raw json.RawMessage) (interface{}, error) {
 			return nil, err
 		}
 		return strconv.ParseFloat(s, 64)
+	case "big":
+		// an integer literal carried as text (callers which need every digit compare the text)
+		var s string
+		if err := json.Unmarshal(m["s"], &s); err != nil {
+			return nil, err
+		}
+		return strconv.ParseFloat(s, 64)
 	case "str":
 		var s string
 		err := json.Unmarshal(m["s"], &s)
